@@ -179,6 +179,9 @@ class Engine(ExprEval, NumpyModel, NumpyFuncs):
                 raise Unsupported("call of an opaque callable")
             raise Unsupported(f"call of non-callable {fr!r} (TypeError in python)")
         k = fr.kind
+        if k == "hasnan":           # frame.isna().any(axis=None): the uninterpreted "contains a missing value" of the held values
+            self.note_assumption("pandas: frame.isna().any(axis=None) is true iff the held values contain a missing value (HASNAN)")
+            return self.call_spec(st, "HASNAN", [fr.target], {}, node)
         if k == "lambda0":          # a nullary accessor whose value is already known
             v = fr.target
             if isinstance(v, Arr) and fr.name and fr.name.endswith(("to_list", "tolist")):
